@@ -37,7 +37,7 @@ def with_layout(torch, x, layout):
 class C14(Prop):
     id = 'C14'
     title = 'Triangular packing of symmetric matrices is lossless'
-    rule = ('Exhaustive part ("pack"): every n in 1..256 plus 13 larger sizes up to 1025 and n=5793, whose packed triangle exceeds 2^24 entries (quick) / 1..1536 plus 8 sizes up to 8193 (thorough; above 2048 float32 contiguous only) x dtypes {float64,float32,bfloat16,float16} x layouts (each size is preceded by two unpack calls with a packed vector of the wrong length, which may fail but must not affect the valid calls) '
+    rule = ('Exhaustive part ("pack"): every n in 1..256 plus 13 larger sizes up to 1025 and n=5793, whose packed triangle exceeds 2^24 entries (quick) / 1..1536 plus 8 sizes up to 8193 (thorough; above 2048 float32 contiguous only) x dtypes {float64,float32,bfloat16,float16} x layouts, plus for n <= 64 a matrix with the largest finite values and infinities (each size is preceded by two unpack calls with a packed vector of the wrong length, which may fail but must not affect the valid calls) '
             '{contiguous, transposed (column-major) view, strided slice of a larger matrix} with position-revealing symmetric contents; '
             'fill_triu(shape, get_triu(x)) == x bit-exactly, get_triu has n(n+1)/2 elements and (n <= 48) equals the row-major upper triangle '
             'from a Python double loop; the input is left unmodified. Communication part ("comm"): W in {2,3}, n in 1..24, dtype, schedule '
@@ -112,6 +112,23 @@ class C14(Prop):
         for dn in dtypes:
             dtype = getattr(torch, dn)
             base = sym_matrix(torch, n, dtype)
+            if n <= 64:
+                # the same with extreme finite / infinite entries (largest finite value on the diagonal and in one off-diagonal pair,
+                # an infinite diagonal entry): packing copies values, it must never do arithmetic on them
+                ext = base.clone()
+                big = torch.finfo(dtype).max
+                ext[0, 0] = big
+                ext[n - 1, n - 1] = float('inf') if n > 1 else big
+                if n > 2:
+                    ext[1, 1] = -big
+                    ext[0, n - 1] = ext[n - 1, 0] = big
+                    ext[1, 2] = ext[2, 1] = float('-inf')
+                y = fill_triu(ext.shape, get_triu(ext))
+                inner += 1
+                if not torch.equal(y, ext):
+                    bad = (y != ext).nonzero()[0].tolist()
+                    return violation(f'n={n} dtype={dn}: fill_triu(get_triu(x)) != x for a matrix with extreme entries at {bad}: {y[tuple(bad)].item()} vs '
+                                     f'{ext[tuple(bad)].item()}', 'roundtrip')
             for layout in layouts:
                 x = with_layout(torch, base, layout)
                 keep = x.clone()
